@@ -37,22 +37,32 @@ var c16Keys = []c16Kind{
 	{"Lit(a)", func() jen.Code { return jen.Lit("a") }, `"a"`, false},
 	{"Id(a)", func() jen.Code { return jen.Id("a") }, "a", false},
 	{"f()", func() jen.Code { return jen.Id("f").Call() }, "f()", false},
-	{"Qual(a/f,X)", func() jen.Code { return jen.Qual("a/f", "X") }, "@a/f.X", false},
-	{"Qual(b/f,X)", func() jen.Code { return jen.Qual("b/f", "X") }, "@b/f.X", false},
+	{"Qual(a/f,X)", func() jen.Code { return jen.Qual("a/f", "X") }, "@<a/f>.X", false},
+	{"Qual(b/f,X)", func() jen.Code { return jen.Qual("b/f", "X") }, "@<b/f>.X", false},
 	{"Null()", func() jen.Code { return jen.Null() }, "", true},
 	{"Lit(ab)", func() jen.Code { return jen.Lit("ab") }, `"ab"`, false},
 	{"a.b", func() jen.Code { return jen.Id("a").Dot("b") }, "a.b", false},
 	{"Id(ab)", func() jen.Code { return jen.Id("ab") }, "ab", false},
+	{"K{A:Qual(a/f),B:Qual(b/f)}", func() jen.Code {
+		return jen.Id("K").Values(jen.Dict{jen.Id("A"): jen.Qual("a/f", "P"), jen.Id("B"): jen.Qual("b/f", "Q")})
+	}, "K{A:@<a/f>.P,B:@<b/f>.Q}", false},
+	{"K{A:f0,B:Qual(b/f)}", func() jen.Code {
+		return jen.Id("K").Values(jen.Dict{jen.Id("A"): jen.Id("f0"), jen.Id("B"): jen.Qual("b/f", "R")})
+	}, "K{A:f0,B:@<b/f>.R}", false},
 }
 
 var c16Vals = []c16Kind{
 	{"Lit(1)", func() jen.Code { return jen.Lit(1) }, "1", false},
 	{"Null()", func() jen.Code { return jen.Null() }, "", true},
-	{"Qual(c/f,Y)", func() jen.Code { return jen.Qual("c/f", "Y") }, "@c/f.Y", false},
+	{"Qual(c/f,Y)", func() jen.Code { return jen.Qual("c/f", "Y") }, "@<c/f>.Y", false},
 	{"Id(v)", func() jen.Code { return jen.Id("v") }, "v", false},
 	{"{1:2}", func() jen.Code { return jen.Values(jen.Dict{jen.Lit(1): jen.Lit(2)}) }, "{1:2}", false},
 	{"Dict{}", func() jen.Code { return jen.Values(jen.Dict{jen.Null(): jen.Lit(2)}) }, "{}", false},
+	{"Lit(long..a)", func() jen.Code { return jen.Lit(c16Long + "a") }, `"` + c16Long + `a"`, false},
+	{"Lit(long..b)", func() jen.Code { return jen.Lit(c16Long + "b") }, `"` + c16Long + `b"`, false},
 }
+
+var c16Long = strings.Repeat("0123456789", 40)
 
 // a Dict instance: pairs of (key kind, value kind), as a sorted multiset
 type c16Dict struct {
@@ -165,11 +175,14 @@ func c16Judge(d c16Dict, o jh.Outcome) string {
 		return fmt.Sprintf("no composite literal T{...} in %q", o.Out)
 	}
 	expand := func(t string) string {
-		if strings.HasPrefix(t, "@") {
-			i := strings.LastIndex(t, ".")
-			return names[t[1:i]] + t[i:]
+		for {
+			i := strings.Index(t, "@<")
+			if i < 0 {
+				return t
+			}
+			j := strings.Index(t[i:], ">")
+			t = t[:i] + names[t[i+2:i+j]] + t[i+j+1:]
 		}
-		return t
 	}
 	var want []string
 	for _, p := range d.Pairs {
@@ -184,14 +197,16 @@ func c16Judge(d c16Dict, o jh.Outcome) string {
 	var got []string
 	var rawKeys []string
 	lines := map[int]bool{}
+	lastEnd := 0
 	for _, e := range lit.Elts {
 		kv, ok := e.(*ast.KeyValueExpr)
 		if !ok {
 			return fmt.Sprintf("element %q is not a key: value pair", src(e))
 		}
-		got = append(got, stripSpace(src(kv.Key))+" : "+stripSpace(src(kv.Value)))
+		got = append(got, strings.ReplaceAll(stripSpace(src(kv.Key)), ",}", "}")+" : "+strings.ReplaceAll(stripSpace(src(kv.Value)), ",}", "}"))
 		rawKeys = append(rawKeys, src(kv.Key))
 		lines[fset.Position(kv.Pos()).Line] = true
+		lastEnd = fset.Position(kv.End()).Line
 	}
 	sortedGot := append([]string(nil), got...)
 	sort.Strings(sortedGot)
@@ -201,11 +216,13 @@ func c16Judge(d c16Dict, o jh.Outcome) string {
 	if !sort.StringsAreSorted(rawKeys) {
 		return fmt.Sprintf("pairs are not ordered by the rendered text of their keys: %q", rawKeys)
 	}
+	// layout: one pair sits on the lines of the braces (a key or value may itself span lines);
+	// several pairs each start on a line of their own, between the braces' lines
 	open, close := fset.Position(lit.Lbrace).Line, fset.Position(lit.Rbrace).Line
 	switch {
-	case len(got) == 1 && (open != close):
+	case len(got) == 1 && (!lines[open] || close != lastEnd):
 		return fmt.Sprintf("a single pair must be rendered inline: %q", o.Out)
-	case len(got) > 1 && (len(lines) != len(got) || lines[open] || lines[close]):
+	case len(got) > 1 && (len(lines) != len(got) || lines[open] || close <= lastEnd):
 		return fmt.Sprintf("several pairs must be rendered one per line: %q", o.Out)
 	}
 	return ""
@@ -229,15 +246,43 @@ type c16Case struct {
 	Desc    string  `json:"description"`
 }
 
+// c16Over enumerates every multiset of up to maxN pairs over the given key and value kinds.
+func c16Over(maxN int, keys, vals []int) []c16Dict {
+	var out []c16Dict
+	var kinds [][2]int
+	for _, k := range keys {
+		for _, v := range vals {
+			kinds = append(kinds, [2]int{k, v})
+		}
+	}
+	var rec func(start int, cur [][2]int)
+	rec = func(start int, cur [][2]int) {
+		out = append(out, c16Dict{Pairs: append([][2]int(nil), cur...)})
+		if len(cur) == maxN {
+			return
+		}
+		for k := start; k < len(kinds); k++ {
+			rec(k, append(cur, kinds[k]))
+		}
+	}
+	rec(0, nil)
+	return out
+}
+
 func c16Space(tier ev.Tier) []c16Dict {
 	var ds []c16Dict
 	if tier == ev.Thorough {
-		ds = c16All(4, len(c16Keys), len(c16Vals))
+		ds = c16All(4, 9, 6)
 		ds = append(ds, c16All(5, 6, 3)...)
+		ds = append(ds, c16All(3, len(c16Keys), len(c16Vals))...)
 	} else {
-		ds = c16All(3, len(c16Keys), len(c16Vals))
+		ds = c16All(3, 9, 6)
 		ds = append(ds, c16All(4, 7, 4)...)
+		ds = append(ds, c16All(2, len(c16Keys), len(c16Vals))...)
 	}
+	// keys that are composite literals built with nested Dicts, next to qualified keys; equal keys
+	// with long values that differ only at their end
+	ds = append(ds, c16Over(3, []int{2, 3, 4, 9, 10}, []int{0, 2, 6, 7})...)
 	return ds
 }
 
@@ -370,7 +415,7 @@ func c16Large(res *c16Result) {
 				ast.Inspect(af, func(nd ast.Node) bool {
 					if kv, ok := nd.(*ast.KeyValueExpr); ok {
 						src := func(x ast.Node) string { return o.Out[fset.Position(x.Pos()).Offset:fset.Position(x.End()).Offset] }
-						got = append(got, stripSpace(src(kv.Key))+" : "+stripSpace(src(kv.Value)))
+						got = append(got, strings.ReplaceAll(stripSpace(src(kv.Key)), ",}", "}")+" : "+strings.ReplaceAll(stripSpace(src(kv.Value)), ",}", "}"))
 						keys = append(keys, src(kv.Key))
 					}
 					return true
@@ -412,7 +457,7 @@ func runC16(r *ev.Recorder) {
 	for _, v := range c16Vals {
 		vnames = append(vnames, v.name)
 	}
-	r.Rule = fmt.Sprintf("every multiset of pairs over key kinds %v and value kinds %v (quick: <= 3 pairs over all 9x6 kinds, 4 pairs over the first 7x4; thorough: <= 4 over all, 5 over 6x3), each key a fresh object (so keys with equal text are distinct map keys), "+
+	r.Rule = fmt.Sprintf("every multiset of pairs over key kinds %v and value kinds %v (quick: <= 3 pairs over the first 9x6 kinds, 4 pairs over the first 7x4, 2 pairs over all 11x8; thorough: <= 4 over 9x6, 5 over 6x3, 3 over all; both: <= 3 pairs over {f(), Qual, Qual, two composite-literal keys built with nested Dicts} x {1, Qual, two 400-byte strings differing in their last byte}), each key a fresh object (so keys with equal text are distinct map keys), "+
 		"rendered raw as `var x = T{...}` - alone in a fresh File, after the qualified paths were made anonymous imports, and after another Dict in the same File with the File rendered twice - under EVERY map iteration order of every dynamic range execution (instrumented build; all n! permutations, deviation bound 1 quick / 2 thorough). "+
 		"Also Dicts of 7, 20, 60 and 150 pairs (string, identifier and qualified keys) under identity, reversed and every rotated order. Oracle on the parsed raw output: the literal's key:value pairs are exactly the multiset of non-null pairs (qualified names resolved through the import block, not through jennifer), "+
 		"ordered by the raw rendered key text, one pair inline and several one per line; and one outcome per Dict over all orders. "+
@@ -426,20 +471,22 @@ func runC16(r *ev.Recorder) {
 			results[i] = c16Explore(r.Tier, i, nshards)
 		}
 	} else {
-		var wg sync.WaitGroup
-		for i := range results {
-			i := i
-			wg.Add(1)
-			go func() {
-				defer wg.Done()
-				out, err := exec.Command(self, "c16shard", string(r.Tier), fmt.Sprint(i), fmt.Sprint(nshards)).Output()
-				if err != nil || json.Unmarshal(out, &results[i]) != nil {
-					fmt.Fprintf(os.Stderr, "C16: shard %d failed: %v\n%s\n", i, err, jh.Short(string(out), 2000))
-					os.Exit(2)
-				}
-			}()
-		}
-		wg.Wait()
+		r.External(func() {
+			var wg sync.WaitGroup
+			for i := range results {
+				i := i
+				wg.Add(1)
+				go func() {
+					defer wg.Done()
+					out, err := exec.Command(self, "c16shard", string(r.Tier), fmt.Sprint(i), fmt.Sprint(nshards)).Output()
+					if err != nil || json.Unmarshal(out, &results[i]) != nil {
+						fmt.Fprintf(os.Stderr, "C16: shard %d failed: %v\n%s\n", i, err, jh.Short(string(out), 2000))
+						os.Exit(2)
+					}
+				}()
+			}
+			wg.Wait()
+		})
 	}
 	var total, ranges, dicts int64
 	classes := map[string]int64{}
